@@ -318,9 +318,17 @@ class Exec:
                 return v.fn, v.skip, v.env
             if f.id in self.modfuncs and f.id not in ctx.env:
                 return self.modfuncs[f.id], 0, {}
-        if isinstance(f, ast.Attribute) and isinstance(f.value, ast.Name) and f.value.id == "self" \
+        if isinstance(f, ast.Attribute) and isinstance(f.value, ast.Name) and f.value.id in ("self", "cls", self.cls.name) \
                 and f.attr in self.methods:
-            return self.methods[f.attr], 1, {}
+            fn = self.methods[f.attr]
+            decos = {ast.unparse(d) for d in fn.decorator_list}  # type: ignore[attr-defined]
+            if decos - {"staticmethod", "classmethod"}:
+                raise Unsupported(f"decorated method {f.attr}")
+            if "staticmethod" in decos:
+                return fn, 0, {}
+            if f.value.id == self.cls.name and "classmethod" not in decos:
+                return fn, 0, {}            # unbound call: `self` is passed explicitly
+            return fn, 1, {}
         return None
 
     def call(self, n: ast.Call, ctx: Ctx, k) -> object:
@@ -987,8 +995,16 @@ class Exec:
                 if ctx.exc is None:
                     raise Unsupported("bare raise outside a handler")
                 return self.raise_(ctx, ctx.exc)
-            e = st.exc.func if isinstance(st.exc, ast.Call) else st.exc
-            return self.raise_(ctx, ast.unparse(e))
+            if st.cause is not None and not isinstance(st.cause, (ast.Name, ast.Constant)):
+                raise Unsupported("raise … from <expression>")
+
+            def thrown(c: Ctx, v: object) -> object:
+                if isinstance(v, T) and v.ty == "ExcObj":
+                    return self.raise_(c, v.term)
+                raise Unsupported(f"raise of {ast.unparse(st.exc)}")
+            if isinstance(st.exc, ast.Name) and st.exc.id not in ctx.env:
+                return self.raise_(ctx, st.exc.id)          # `raise ValueError`
+            return self.eval(st.exc, ctx, thrown)
         if isinstance(st, ast.Continue):
             if ctx.loop is None:
                 raise Unsupported("continue outside a loop")
@@ -1049,7 +1065,10 @@ class Exec:
                     raise Unsupported("match pattern")
                 if not cats:
                     return self.block(cs.body + rest, c2, k)
-                cond = " || ".join(f'decide ({s} = "{x}")' for x in cats)
+                def eq(x: str) -> str:
+                    a, b = sorted((s, f'"{x}"'))
+                    return f"decide ({a} = {b})"
+                cond = " || ".join(eq(x) for x in cats)
                 return self.mk_if(cond if len(cats) == 1 else f"({cond})", self.block(cs.body + rest, c2, k), case(i + 1, c2))
             return case(0, c)
         return self.eval(st.subject, ctx, got)
@@ -1452,6 +1471,17 @@ def Src.init : Src := ⟨[], [], [], []⟩
 '''
 
 
+def renumber(text: str) -> str:
+    """Bound names `<base>_<n>` renumbered in order of first appearance (the executor's counter also counts paths that
+    were explored and dropped)."""
+    import re
+    pat = re.compile(r"\b(reqs|receivers|tasks|leaked|v|c)_(\d+)\b")
+    order: dict[str, str] = {}
+    for m in pat.finditer(text):
+        order.setdefault(m.group(0), f"{m.group(1)}_{len(order) + 1}")
+    return pat.sub(lambda m: order[m.group(0)], text)
+
+
 def generate(repo: pathlib.Path) -> str:
     mod = ast.parse((repo / SOURCES[0]).read_text())
     tables = DS._tables(mod)
@@ -1473,19 +1503,19 @@ def generate(repo: pathlib.Path) -> str:
     out.append("    answers (the API's component list). -/")
     out.append("def addMetric (categoryOf : Nat → Option Category) (s : Src) (request : Chan) :")
     out.append("    Except Exc (Src × List Out × Unit) :=")
-    out.append(add)
+    out.append(renumber(add))
     out.append("")
     out.append("/-- The streaming method from its start to its `async for`: the state it leaves, the sender snapshot and the")
     out.append("    (empty) set of sending tasks.  The loop then iterates `receivers[comp_id]`. -/")
     out.append("def handlePrologue (s : Src) (comp_id : Nat) (category : Category) :")
     out.append("    Except Exc (Src × List Out × (Snapshot × List Msg)) :=")
-    out.append(prologue)
+    out.append(renumber(prologue))
     out.append("")
     out.append("/-- One iteration of the `async for` for the received message `data`: what is sent (the fan-out task is run where")
     out.append("    it is created) and the sending tasks kept (`isDone` = which tasks `asyncio.wait(…, timeout=0)` reports done). -/")
     out.append("def handleMessage (isDone : Msg → Bool) (s : Src) (comp_id : Nat) (snap : Snapshot) (sending : List Msg)")
     out.append("    (data : Msg) : Except Exc (Src × List Out × List Msg) :=")
-    out.append(body)
+    out.append(renumber(body))
     out.append("")
     out.append("/-- `DataSourcingActor._run`: the entry point for each request of the request stream, in order. -/")
     out.append("def actorRun (categoryOf : Nat → Option Category) (s : Src) (requests : List Chan) : Except Exc Src :=")
